@@ -1,13 +1,234 @@
 import FluentProofs.SpecLex
 import FluentProofs.SpecDedent
+import FluentProofs.SpecFuel
+/-!
+# C02 — well-formed FTL parses to exactly the tree the Fluent grammar assigns
+
+Two executable objects are related here:
+
+* `FluentModel.Syntax.parse` (`FluentModel/Parser.lean`) — the function-for-function model of the Rust
+  parser, tied to `/repo` by the `parse` and `spec` correspondence checks;
+* `FluentModel.SpecGrammar.parse` (`FluentModel/SpecGrammar.lean`) — an independent executable
+  specification transcribed from the Fluent 1.0 EBNF (as a PEG) and the abstract-syntax rules, validated
+  at every run against the repo's 68 reference trees.  `wellFormed src` = that tree has no Junk.
+
+The property is `parse_refines_grammar` below (a `def … : Prop`, the whole-resource statement).  It is
+NOT yet a theorem: what is proved (for ALL sources and positions, no bounds) is the layered plan of
+DESIGN §6/C02 up to
+
+* **T1, lexical layer** — every scanner of the parser model against the grammar's lexical rule:
+  `blank_inline`, `line_end`, `blank`, `blank_block`, `Identifier`, `NumberLiteral`, `StringLiteral`
+  (exact escape set), the `VariantKey` choice, `inline_text`, `comment_char*`, the comment marker;
+* **spec totality** — `SpecGrammar.parse` never runs out of fuel (`spec_total`);
+* **T2, dedentation core** — `finishElements`' offset arithmetic `start + min indent common` is the
+  grammar's `dedent`; `Slice::trim` is "the last element loses trailing white space"; `commonIndent` is
+  the attained minimum; the grammar's patterns are in `joinText`-normal form.
+
+Until the expression layer (inline expressions, call arguments, select/variants), whole patterns,
+entries and comment attachment are connected (T2 rest, T3), the whole-resource claim rests on the
+three-way differential test of `tools/fv/props/c02.py` (spec vs. parser vs. generator's tree).
+
+The source is the UTF-8 encoding of a `String` (`bytesOf str`), which is what a Rust `&str` is; the one
+UTF-8 fact used is `asciiThenBoundary_of_string`.  `rest s p` = the bytes of `s` from `p` on.
+-/
 namespace FluentProofs.C02
-open FluentModel FluentModel.Syntax
+open FluentModel FluentModel.Syntax FluentModel.SpecGrammar
+open FluentProofs.Parser FluentProofs.SpecLex FluentProofs.SpecDedent
 
-/-- full statement -/
+/-- the UTF-8 bytes of a string, as the parser model's source -/
+def bytesOf (str : String) : Src := str.toUTF8.data
+
+/-- **Full statement of C02 on the models** (kept visible; not yet proved).  For every source that the
+grammar calls well-formed, the parser returns without panic or fuel exhaustion, reports no error (hence
+no Junk), and its tree with adjacent text elements joined is the tree the grammar assigns.
+
+Missing for a proof: (1) expression layer — `getInline`/`getCallArguments`/`getCallArgsLoop`/
+`getExpression`/`getVariants` against `inlineExpression`/`callArguments`/`argumentList`/`inlinePlaceable`/
+`variantList` (mutual induction on fuel; the parser's optional comma between arguments and its
+`blank_inline`-only skip before `}` are leniencies that do not arise on well-formed input);
+(2) `getPatternLoop` against `patternElements` (line structure of the placeholders versus
+`block_text`/`block_placeable`), then `finishElements` against `finishPattern` using `dedent_offset` and
+`trimEnd_eq_dropTrailingWs`; (3) `getMessage`/`getTerm`/`getAttributes`/`getComment`
+against `messageP`/`termP`/`attributesP`/`commentLine`; (4) `parseLoop`'s `lastComment`/`lastBlankCount`
+against `joinComments`/`attachComments`.  (Fuel sufficiency of `SpecGrammar.fuelFor` is `spec_total`.)
+Layout independence (the property's second sentence) follows from this statement for every layout change
+under which `SpecGrammar.parse` is invariant; it is exercised by the ≥ 8 layouts per AST of the generator.
+
+Deviations of the parser from the grammar on well-formed input that the differential check found are
+recorded in `known_findings.json` (a whitespace-only last line without line break used to become Junk);
+the statement below is the property as it should hold. -/
 def parse_refines_grammar : Prop :=
-  ∀ (src : Bytes), SpecGrammar.wellFormed src = true →
-    ∃ t, parse src.toArray = .done (t, []) ∧
-      some (Resource.joinText (resolve src.toArray t)) = SpecGrammar.parse src
+  ∀ (str : String), wellFormed (bytesOf str).toList = true →
+    ∃ t, parse (bytesOf str) = .done (t, []) ∧
+      SpecGrammar.parse (bytesOf str).toList = some (Resource.joinText (resolve (bytesOf str) t))
 
-theorem stub_partial : True := trivial
+/-! ## the specification is total -/
+
+/-- the executable grammar assigns a tree to EVERY input: the fuel `SpecGrammar.parse` passes to its
+recursive productions always suffices (`wellFormed` is never decided by fuel exhaustion) -/
+theorem spec_total (i : List UInt8) : (SpecGrammar.parse i).isSome = true :=
+  FluentProofs.SpecFuel.parse_isSome i
+
+/-! ## T1 — lexical layer -/
+
+/-- `blank_inline?` (`" "*`) is `skip_blank_inline` -/
+theorem T1_blank_inline (str : String) (p : Nat) :
+    spaces (rest (bytesOf str) p) = rest (bytesOf str) (skipBlankInline (bytesOf str) p) :=
+  spaces_eq_skipBlankInline _ p
+
+/-- `line_end ::= "\r\n" | "\n" | EOF` is `skip_eol`, except that the grammar also accepts `EOF` -/
+theorem T1_line_end (str : String) (p : Nat) :
+    lineEnd (rest (bytesOf str) p) =
+      (match skipEol (bytesOf str) p with
+       | some q => some (rest (bytesOf str) q)
+       | none => if (bytesOf str).size ≤ p then some [] else none) :=
+  lineEnd_eq_skipEol _ p
+
+/-- `blank?` (`(blank_inline | line_end)*`) is `skip_blank` -/
+theorem T1_blank (str : String) (p : Nat) :
+    blankOpt (rest (bytesOf str) p) = rest (bytesOf str) (skipBlank (bytesOf str) p) :=
+  blankOpt_eq_skipBlank _ p
+
+/-- `blank_block ::= (blank_inline? line_end)+` is `skip_blank_block`: same number of line breaks, same end
+position (spaces that run to `EOF` included); the rule fails exactly when nothing was skipped and the
+input has not ended. -/
+theorem T1_blank_block (str : String) (p : Nat) (hp : p ≤ (bytesOf str).size) :
+    blankBlock (rest (bytesOf str) p) =
+      (let qc := skipBlankBlock (bytesOf str) p
+       if qc.2 = 0 ∧ qc.1 < (bytesOf str).size then none else some (qc.2, rest (bytesOf str) qc.1)) :=
+  blankBlock_eq_skipBlankBlock _ p hp
+
+/-- `get_identifier` succeeds exactly when `Identifier ::= [a-zA-Z][a-zA-Z0-9_-]*` matches, on exactly
+the bytes `s[p..q)`, with the same rest; otherwise it reports an error and the rule fails; no panic. -/
+theorem T1_identifier (str : String) (p : Nat) :
+    match getIdentifier (bytesOf str) p with
+    | .ok sp q => sp = ⟨p, q⟩ ∧ p < q ∧
+        identifier (rest (bytesOf str) p) = some (spanBytes (bytesOf str) sp, rest (bytesOf str) q)
+    | .err _ _ => identifier (rest (bytesOf str) p) = none
+    | .panic _ => False
+    | .fuel => False :=
+  identifier_eq_getIdentifier (asciiThenBoundary_of_string str) p
+
+/-- `get_number_literal` versus `NumberLiteral ::= "-"? digits ("." digits)?` (T1 + T2 acceptance):
+success = the rule matches exactly `s[p..q)`.  On `digits "."` without a following digit the scanner
+reports an error where the PEG rule matches the digits and stops before the dot. -/
+theorem T1_number_literal (str : String) (p : Nat) (hp : isBoundary (bytesOf str) p = true) :
+    match getNumberLiteral (bytesOf str) p with
+    | .ok sp q => sp = ⟨p, q⟩ ∧ p < q ∧
+        numberLiteral (rest (bytesOf str) p) = some (spanBytes (bytesOf str) sp, rest (bytesOf str) q)
+    | .err _ _ => numberLiteral (rest (bytesOf str) p) = none ∨
+        ∃ q, p < q ∧ (bytesOf str)[q]? = some 46 ∧
+          numberLiteral (rest (bytesOf str) p) = some (seg (bytesOf str) p q, rest (bytesOf str) q)
+    | .panic _ => False
+    | .fuel => False :=
+  numberLiteral_eq_getNumberLiteral (asciiThenBoundary_of_string str) p hp
+
+/-- the string-literal scanner (from after the opening quote; the caller then expects `"`) accepts
+exactly `StringLiteral ::= "\"" quoted_char* "\""` — escapes `\\`, `\"`, `\uXXXX`, `\UXXXXXX` only, no raw
+line end — and yields the same raw value `s[p+1..q)` (T1 + T2 acceptance). -/
+theorem T1_string_literal (str : String) (p : Nat) (h : (bytesOf str)[p]? = some 34) :
+    match scanString (bytesOf str) (p + 1) with
+    | .ok _ q =>
+      ((bytesOf str)[q]? = some 34 ∧
+        stringLiteral (rest (bytesOf str) p) = some (seg (bytesOf str) (p + 1) q, rest (bytesOf str) (q + 1))) ∨
+      ((bytesOf str)[q]? = none ∧ stringLiteral (rest (bytesOf str) p) = none)
+    | .err _ _ => stringLiteral (rest (bytesOf str) p) = none
+    | .panic _ => False
+    | .fuel => False :=
+  stringLiteral_eq_scanString (asciiThenBoundary_of_string str) p h
+
+/-- `VariantKey`: the one-byte test `is_number_start` of `get_variant_key` decides the grammar's ordered
+choice `NumberLiteral | Identifier` (with `T1_number_literal`, `T1_identifier`, `T1_blank`) -/
+theorem T1_variant_key_choice (str : String) (p : Nat) :
+    (isNumberStart (bytesOf str) p = true → identifier (rest (bytesOf str) p) = none) ∧
+    (isNumberStart (bytesOf str) p = false → numberLiteral (rest (bytesOf str) p) = none) :=
+  variantKey_choice _ p
+
+/-- `get_text_slice` versus `inline_text ::= text_char+`: the slice starts at the cursor and covers exactly
+the grammar's run of text chars (`text_char ::= any_char - "{" - "}" - line_end`; a lone `\r` is a text
+char), plus the `\n` itself when the termination is a line feed; the terminations are exactly what can
+follow a run (`\n`, `\r\n`, `{`, end of input) and `}` is the error. -/
+theorem T1_inline_text (str : String) (p : Nat) (hp : p ≤ (bytesOf str).size) :
+    match getTextSlice (bytesOf str) p with
+    | .ok (start, stop, _, term) q => start = p ∧
+        textRun (rest (bytesOf str) p) =
+          (seg (bytesOf str) p (textStop term stop), rest (bytesOf str) (textStop term stop)) ∧
+        (match term with
+         | .lineFeed => (bytesOf str)[stop - 1]? = some 10 ∧ q = stop ∧ p < stop
+         | .crlf => (bytesOf str)[stop]? = some 13 ∧ (bytesOf str)[stop + 1]? = some 10 ∧ q = stop + 1
+         | .placeableStart => (bytesOf str)[stop]? = some 123 ∧ q = stop
+         | .eof => stop = (bytesOf str).size ∧ q = (bytesOf str).size)
+    | .err _ q => (bytesOf str)[q]? = some 125 ∧
+        textRun (rest (bytesOf str) p) = (seg (bytesOf str) p q, rest (bytesOf str) q)
+    | .panic _ => False
+    | .fuel => False :=
+  textRun_eq_getTextSlice _ p hp
+
+/-- `get_comment_line` reads exactly `comment_char*` (up to, not including, the line end) -/
+theorem T1_comment_line (str : String) (p : Nat) (hp : isBoundary (bytesOf str) p = true) :
+    ∃ e, getCommentLine (bytesOf str) p = .ok ⟨p, e⟩ e ∧
+      commentChars (rest (bytesOf str) p) = (spanBytes (bytesOf str) ⟨p, e⟩, rest (bytesOf str) e) :=
+  commentChars_eq_getCommentLine p hp
+
+/-- `get_comment_level` is the ordered choice `"###" | "##" | "#"` -/
+theorem T1_comment_level (str : String) (p : Nat) :
+    commentMarker (rest (bytesOf str) p) =
+      (if (getCommentLevel (bytesOf str) p).1 = 0 then none
+       else some ((getCommentLevel (bytesOf str) p).1, rest (bytesOf str) (getCommentLevel (bytesOf str) p).2)) :=
+  commentMarker_eq_getCommentLevel _ p
+
+/-! ## T2 — validity rule on callees -/
+
+/-- on an identifier, Rust's `is_callee` (every byte in `[A-Z0-9_-]`) is the grammar's callee rule
+`[A-Z][A-Z0-9_-]*` -/
+theorem T2_callee (s : Src) (sp : Span) (b : UInt8) (r : List UInt8)
+    (h : spanBytes s sp = b :: r) (hb : isAlpha b = true) :
+    calleeOk (spanBytes s sp) = isCallee s sp :=
+  calleeOk_eq_isCallee s sp b r h hb
+
+/-! ## T2 — dedentation core -/
+
+/-- for a line whose first `indent` bytes are spaces, the slice `start + min indent common .. stop` taken
+by `finishElements` is what the grammar produces for the line: the indent minus `common` spaces, then the
+line's text -/
+theorem T2_dedent_offset (s : Src) (start stop indent common : Nat)
+    (hsp : ∀ j, start ≤ j → j < start + indent → s[j]? = some 32) (h : start + indent ≤ stop) :
+    spanBytes s ⟨start + min indent common, stop⟩ =
+      dedentText common indent ++ spanBytes s ⟨start + indent, stop⟩ :=
+  dedent_offset s start stop indent common hsp h
+
+/-- `Slice::trim` (drops trailing `' ' | '\r' | '\n'`) is the grammar's "the last element loses trailing
+white space", byte for byte -/
+theorem T2_trim (s : Src) (sp : Span) (h : sp.stop ≤ s.size) :
+    spanBytes s (trimEnd s sp) = dropTrailingWs (spanBytes s sp) :=
+  trimEnd_eq_dropTrailingWs s sp h
+
+/-- the grammar's common indent is the attained minimum over all `block_text`/`block_placeable` indents -/
+theorem T2_common_indent_min (els : List RawEl) (c : Nat) (h : commonIndent els = some c) :
+    c ∈ indentsOf els ∧ ∀ k ∈ indentsOf els, c ≤ k :=
+  commonIndent_is_min els c h
+
+/-- every pattern of the grammar's tree is in joined normal form and has no empty text element -/
+theorem T2_pattern_normal_form (els : List RawEl) :
+    NoAdjText (finishPattern els) ∧ ∀ e ∈ finishPattern els, nonEmptyEl e = true :=
+  ⟨finishPattern_noAdj els, finishPattern_nonEmpty els⟩
+
+/-! ## non-vacuity / sanity (tests on literals) -/
+
+/-- test: a well-formed source with an attached comment, a multi-line value with a placeable-led line,
+a select expression and a term: the grammar calls it well-formed and `parse_refines_grammar`'s
+conclusion holds for it -/
+example :
+    let src := strBytes "# c\nkey =\n      two\n    { $n ->\n        [one] x\n       *[other] { FOO(1, k: \"v\") }\n    }\n-t = v\n    .a = w\n"
+    (wellFormed src &&
+      (match parse src.toArray, SpecGrammar.parse src with
+       | .done (t, errs), some g => errs.isEmpty && Resource.sexp (Resource.joinText (resolve src.toArray t)) == Resource.sexp g
+       | _, _ => false)) = true := by decide +kernel
+
+/-- test: the grammar rejects what the abstract syntax forbids (entries become Junk) -/
+example :
+    ((["a = { -t.attr }\n", "a = { m -> \n *[x] y\n}\n", "a = { FOO(x: 1, 2) }\n", "a = { FOO(x: 1, x: 2) }\n",
+       "a = { foo() }\n", "a = { $x ->\n [a] b\n}\n", "a = { \"\\q\" }\n"].map
+        fun s => wellFormed (strBytes s)) = [false, false, false, false, false, false, false]) := by decide +kernel
+
 end FluentProofs.C02
